@@ -12,10 +12,12 @@ type IdCustomer int64
 // Customer is a primary table with an ID type, a unique column and a guard.
 // gomacro:SQL ADD UNIQUE(Email)
 // gomacro:QUERY RenameCustomers UPDATE Customer SET Name = $val$ WHERE Tier = $sel$;
+// gomacro:QUERY RelabelCustomers UPDATE Customer SET Nick = $val$ WHERE (Name = $sel$ OR Email = $sel$) AND Tier = $lim$;
 type Customer struct {
 	guard    Status `gomacro-sql-guard:"#[Status.Paid]"`
 	Id       IdCustomer
 	Name     string
+	Nick     string
 	Email    string
 	Tier     Tier
 	Address  Address
@@ -72,4 +74,11 @@ type OrderLine struct {
 type Favorite struct {
 	IdCustomer IdCustomer `gomacro-sql-on-delete:"CASCADE"`
 	IdProduct  int64      `gomacro-sql-foreign:"Product" gomacro-sql-on-delete:"CASCADE"`
+}
+
+// Membership is a link table with a nullable foreign key next to a plain one.
+type Membership struct {
+	IdCustomer IdCustomer    `gomacro-sql-on-delete:"CASCADE"`
+	Team       sql.NullInt64 `gomacro-sql-foreign:"Product" gomacro-sql-on-delete:"SET NULL"`
+	Role       string
 }
